@@ -12,6 +12,7 @@ case "$pk" in dblib) dir=. ;; *) dir=$pk ;; esac
 rel=$dir/$(basename $demo); [ "$dir" = "." ] && rel=$(basename $demo)
 [ "$dir" = "." ] && pkg=. || pkg=./$dir/
 run=$(grep -oE -- '-run [A-Za-z0-9_|^$]+' $src/demo_path.txt | head -1)
+grep -q -- '-race' $src/demo_path.txt && run="-race $run"   # demonstrations whose oracle is the race detector
 cp $demo $wt/$rel
 t0=$(date +%s)
 go test -vet=off -count=1 -timeout 120s $run $pkg > /tmp/wt/$id.$m.clean.log 2>&1; clean=$?
